@@ -264,7 +264,7 @@ def key_of(c, impl, want):
 def run(ctx):
     _init_certs()
     _init_cas()
-    ctx.translate(['TlsVersions.v', 'TlsModes.v'])
+    ctx.translate(['TlsVersions.v', 'TlsModes.v', 'SessionErrors.v'])   # SessionErrors.v: the client front-end theorems use p4's task model
     spec_ok = ctx.build_models(REQ_SPEC)
     models_ok = spec_ok and ctx.build_models(REQ)
     ctx.prove()
